@@ -29,11 +29,12 @@ S3 = math.sqrt(3.0)
 DEVS = ["RectangleContainmentIgnoresRotation", "BorderPointTwoNearestVertices", "RectanglePosSetterKeepsCorners",
         "LayoutSkipsCentring", "Sec3SetPosKeepsSectors", "Sec3SetRadiusKeepsCentres", "MoveBypassesPosSetter",
         "WrapUsersUseCachedTranslation", "CircleBorderZeroRatioIsOne", "ClusterPlaceAllDropsMinDist"]
+PYTAB = [(4, 3, 5), (3, 4, 5), (5, 12, 13), (8, 15, 17), (7, 24, 25), (24, 7, 25)]     # as PyTab in Geometry.tla (sent back in every case)
 INVS = ["TypeOK", "VertexLaws", "ContainmentAgrees", "ContainmentLaws", "ZAgreesWithQ", "BorderAgrees", "BorderLaws",
-        "LayoutLaws", "ClusterRadiusLaws", "Sec3NoOverlap", "DistLaws", "WrapLaws", "MutFresh", "PlaceClLaws"]
+        "LayoutLaws", "ClusterRadiusLaws", "Sec3NoOverlap", "DistLaws", "WrapLaws", "MutFresh", "PlaceClLaws", "GenericAngleLaws", "SimilarityLaw"]
 ACTIONS = ["Contain", "Border", "Layout", "DistMat", "Wrap", "MutNew", "MutSetPos", "MutMoveRel", "MutMovePolar", "MutSetRot",
            "MutSetRad", "MutAddUser", "MutDelUsers", "WrapSetPos", "WrapMoveRel", "WrapMovePolar", "WrapSetRaises",
-           "Place", "PlaceCl", "PProc"]
+           "Place", "PlaceCl", "PProc", "ContainG", "BorderG", "LayoutG"]
 F_RECT = "RectangleContainmentIgnoresRotation"
 F_BORDER = "BorderPointTwoNearestVertices"
 F_MOVE = "RectanglePosSetterKeepsCorners"
@@ -60,8 +61,26 @@ def qf(x):
     return (x[0] + x[1] * S3) / x[2]
 
 
+# similarity applied to a whole case (SimilarityLaw of the specification): lengths * S, points * S + O.
+# Set per replayed case (worker processes are single threaded); (1, 0) = the case as emitted.
+_XF = [1.0, 0j]
+
+
 def pc(p):
-    return complex(qf(p[0]), qf(p[1]))
+    return _XF[0] * complex(qf(p[0]), qf(p[1])) + _XF[1]
+
+
+def ql(x):
+    """a length of the case"""
+    return _XF[0] * qf(x)
+
+
+def rotf(c):
+    """rotation of a case in degrees: a multiple of 30, plus a generic (Pythagorean) angle when the case has one"""
+    if "g" not in c:
+        return c["rot"]
+    a, b, _ = c["py"]
+    return c["rot"] + c["g"]["sgn"] * math.degrees(math.atan2(b, a))
 
 
 def shape(kind, pos, r=Q0, w=Q0, h=Q0, rad=Q0, ipos=None):
@@ -80,12 +99,12 @@ PFAR = pt(3, 2)
 
 
 def model(ops, shapes=(), rots=(0,), G=4, clusters=(), crots=(0,), ucells=(1,), uangles=(0,), urel=(),
-          mutalpha=None, rel=(), dev=(), emit=True, invariants=INVS):
+          mutalpha=None, rel=(), dev=(), emit=True, invariants=INVS, gens=()):
     mutalpha = mutalpha or malpha([MUT_BASE["Cell"]], pos=[P0], r=[q(1)], rot=[0])
     defs = {"Ops": tlc.tla(set(ops)), "Shapes": tlc.tla(list(shapes)), "Rots": tlc.tla(set(rots)),
             "Clusters": tlc.tla(list(clusters)), "CRots": tlc.tla(set(crots)), "UCells": tlc.tla(list(ucells)),
             "UAngles": tlc.tla(list(uangles)), "URel": tlc.tla(list(urel)), "MutAlpha": tlc.tla(mutalpha),
-            "RelCases": tlc.tla(list(rel)), "Dev": tlc.tla({k: (k in dev) for k in DEVS})}
+            "RelCases": tlc.tla(list(rel)), "Gens": tlc.tla(list(gens)), "Dev": tlc.tla({k: (k in dev) for k in DEVS})}
     cfg = tlc.cfg_text(constants={"G": str(G)}, defs=defs, invariants=invariants,
                        action_constraints=["Emit"] if emit else [], view="MutView" if "mut" in ops else None)
     return cfg, defs
@@ -96,7 +115,7 @@ def all_rots():
     return list(range(-720, 721, 30))
 
 
-QUICK_ROTS = [0, 30, -300, 90, 480, -210, 180, -510, 240, -90, 660, -30, 720, -720]
+QUICK_ROTS = [0, 30, -300, 90, 480, -210, 180, -510, 240, -90, 660, -30, -720]
 
 
 def shape_domain(thorough):
@@ -154,6 +173,12 @@ def rel_domain(thorough, seed):
     rots = [0, 30, -60, 90, 210, -690] if thorough else [0, 30, -60, 210]
     ratios = [q(0), q(1, 0, 2), q(7, 0, 10)]
     cases = []
+    # a minimum distance close to the radius: only a thin ring (the corners) is left for the rejection sampling
+    thin = q(19, 0, 20)
+    for rot in rots[:2]:
+        cases.append(dict(what="place", s=shape("hex", P1, r=q(2)), rot=rot, ratio=thin, users=4, sector=0))
+        cases.append(dict(what="place", s=shape("square", P0, w=q(5, 0, 2)), rot=rot, ratio=thin, users=4, sector=0))
+        cases.append(dict(what="place", s=shape("sec3", P1, r=q(3, 0, 2)), rot=rot, ratio=thin, users=4, sector=0))
     for rot in rots:
         for ratio in ratios:
             cases.append(dict(what="place", s=shape("hex", P1, r=q(2)), rot=rot, ratio=ratio, users=users, sector=0))
@@ -208,47 +233,50 @@ def inside_f(verts, p, tol=1e-9):
 
 
 def close(a, b):
-    return abs(a - b) <= TOL * max(1.0, abs(b))
+    return abs(a - b) <= TOL * max(min(1.0, _XF[0]), abs(b))
 
 
 # ----------------------------------------------------------------------------- building real objects
 def build(s, rot):
-    """the real object for a shape record; for cells also usable as CellBase"""
+    """the real objects for a shape record (for rotation 0 also built with the rotation argument omitted)"""
     from pyphysim.cell import shapes, cell
     k = s["kind"]
     pos = pc(s["pos"])
+    dflt = isinstance(rot, int) and rot == 0
     if k == "hex":
-        return [shapes.Hexagon(pos, qf(s["r"]), rot), cell.Cell(pos, qf(s["r"]), None, rot)]
+        return [shapes.Hexagon(pos, ql(s["r"]), rot), cell.Cell(pos, ql(s["r"]), None, rot)] + \
+               ([shapes.Hexagon(pos, ql(s["r"])), cell.Cell(pos, ql(s["r"]))] if dflt else [])
     if k == "rect":
-        hw, hh = qf(s["w"]) / 2, qf(s["h"]) / 2
+        hw, hh = ql(s["w"]) / 2, ql(s["h"]) / 2
         return [shapes.Rectangle(pos - complex(hw, hh), pos + complex(hw, hh), rot),
-                shapes.Rectangle(pos + complex(hw, -hh), pos + complex(-hw, hh), rot)]   # the other diagonal
+                shapes.Rectangle(pos + complex(hw, -hh), pos + complex(-hw, hh), rot)] + \
+               ([shapes.Rectangle(pos - complex(hw, hh), pos + complex(hw, hh))] if dflt else [])   # the other diagonal
     if k == "square":
-        return [cell.CellSquare(pos, qf(s["w"]), None, rot)]
+        return ([cell.CellSquare(pos, ql(s["w"]))] if dflt else []) + [cell.CellSquare(pos, ql(s["w"]), None, rot)]
     if k == "circle":
-        return [shapes.Circle(pos, qf(s["r"]))]
+        return [shapes.Circle(pos, ql(s["r"]))]
     if k == "sec3":
-        return [cell.Cell3Sec(pos, qf(s["r"]), None, rot)]
+        return ([cell.Cell3Sec(pos, ql(s["r"]))] if dflt else []) + [cell.Cell3Sec(pos, ql(s["r"]), None, rot)]
     ipos = pc(s["ipos"])
     if k == "wrap_hex":
-        return [cell.CellWrap(pos, cell.Cell(ipos, qf(s["r"]), 1, rot))]
+        return [cell.CellWrap(pos, cell.Cell(ipos, ql(s["r"]), 1, rot))]
     if k == "wrap_square":
-        return [cell.CellWrap(pos, cell.CellSquare(ipos, qf(s["w"]), 1, rot))]
+        return [cell.CellWrap(pos, cell.CellSquare(ipos, ql(s["w"]), 1, rot))]
     if k == "wrap_sec3":
-        return [cell.CellWrap(pos, cell.Cell3Sec(ipos, qf(s["r"]), 1, rot))]
+        return [cell.CellWrap(pos, cell.Cell3Sec(ipos, ql(s["r"]), 1, rot))]
     raise ValueError(k)
 
 
 def build_cluster(cl, rot, cid=None):
     from pyphysim.cell import cell
-    return cell.Cluster(cell_radius=qf(cl["r"]), num_cells=cl["n"], pos=pc(cl["pos"]), cluster_id=cid,
+    return cell.Cluster(cell_radius=ql(cl["r"]), num_cells=cl["n"], pos=pc(cl["pos"]), cluster_id=cid,
                         cell_type=cl["type"], rotation=rot)
 
 
 def verts_equal(obj, verts):
     v = np.asarray(obj.vertices)
     want = np.array([pc(p) for p in verts])
-    return v.shape == want.shape and np.all(np.abs(v - want) <= TOL * np.maximum(1.0, np.abs(want)))
+    return v.shape == want.shape and np.all(np.abs(v - want) <= TOL * np.maximum(min(1.0, _XF[0]), np.abs(want)))
 
 
 def non_axis(s, rot):
@@ -294,8 +322,17 @@ def run_case(job):
 def _run_case(job):
     e, seed = job
     op = e["post"]["op"]
+    _XF[:] = [2.0 ** e["xf"][0], complex(e["xf"][1], e["xf"][2])] if e.get("xf") else [1.0, 0j]
     try:
-        return {"contain": rc_contain, "border": rc_border, "layout": rc_layout, "distmat": rc_distmat, "wrap": rc_wrap,
+        return _run_case2(e, seed, op)
+    finally:
+        _XF[:] = [1.0, 0j]
+
+
+def _run_case2(e, seed, op):
+    try:
+        return {"contain": rc_contain, "border": rc_border, "layout": rc_layout,
+                "containg": rc_contain, "borderg": rc_border, "layoutg": rc_layout, "distmat": rc_distmat, "wrap": rc_wrap,
                 "place": rc_place, "placecl": rc_placecl, "pproc": rc_pproc}[op](e, seed)
     except _Hang:
         raise
@@ -308,10 +345,13 @@ def _run_case(job):
 def rc_contain(e, seed):
     from pyphysim.cell import cell
     c, out = e["post"], e["out"]
-    s, rot = c["s"], c["rot"]
+    s, rot = c["s"], rotf(c)
     g = int(round((math.sqrt(len(out["res"])) - 1) / 2))
     gw = 2 * g + 1
     okc, probs = 0, []
+
+    def gp(n):
+        return _XF[0] * complex((n // gw - g) / 2.0, (n % gw - g) / 2.0) + _XF[1]
     for obj in build(s, rot):
         name = type(obj).__name__
         if not verts_equal(obj, out["verts"]):
@@ -322,11 +362,11 @@ def rc_contain(e, seed):
         for n, code in enumerate(out["res"]):
             if code == 2:
                 continue
-            p = complex((n // gw - g) / 2.0, (n % gw - g) / 2.0)
+            p = gp(n)
             got = bool(obj.is_point_inside_shape(p))
             if got == (code == 1):
                 okc += 1
-            elif out["dev"] and got == (out["dev"][n] == 1) and non_axis(s, rot):
+            elif out.get("dev") and got == (out["dev"][n] == 1) and non_axis(s, rot):
                 wrong_dev.append(p)
             else:
                 wrong.append((p, got))
@@ -342,7 +382,7 @@ def rc_contain(e, seed):
             for n, code in enumerate(out["res"]):
                 if code == 2 or n % 3:
                     continue
-                p = complex((n // gw - g) / 2.0, (n % gw - g) / 2.0)
+                p = gp(n)
                 before = obj.num_users
                 try:
                     obj.add_user(cell.Node(p), relative_pos_bool=False)
@@ -360,11 +400,11 @@ def _sig(s, rot):
     k = s["kind"]
     d = {"pos": pc(s["pos"])}
     if k in ("rect",):
-        d.update(w=round(qf(s["w"]), 6), h=round(qf(s["h"]), 6))
+        d.update(w=round(ql(s["w"]), 9), h=round(ql(s["h"]), 9))
     elif "square" in k:
-        d.update(side=qf(s["w"]))
+        d.update(side=ql(s["w"]))
     else:
-        d.update(r=round(qf(s["r"]), 6))
+        d.update(r=round(ql(s["r"]), 9))
     d["rot"] = rot
     return "(" + ", ".join(f"{a}={b}" for a, b in d.items()) + ")"
 
@@ -383,10 +423,12 @@ def _ratio_forms(name):
 def rc_border(e, seed):
     from pyphysim.cell import cell
     c, out = e["post"], e["out"]
-    s, rot = c["s"], c["rot"]
+    s, rot = c["s"], rotf(c)
     okc, probs = 0, []
     nonsq = s["kind"] == "rect" and s["w"] != s["h"]
     ctr = pc(s["pos"])
+    # generic directions: 30 k + the angle of the case's second Pythagorean triple
+    dth = c["gd"]["sgn"] * math.degrees(math.atan2(c["pyd"][1], c["pyd"][0])) if "gd" in c else 0
     for obj in build(s, rot):
         name = type(obj).__name__
         if not verts_equal(obj, out["verts"]):
@@ -395,7 +437,7 @@ def rc_border(e, seed):
         wrong = []
         for k in range(12):
             # the same direction written with different numbers of full turns, as int / float / numpy scalar
-            base = 30 * k
+            base = 30 * k + dth
             angles = [base, float(base), base + 360.0, base - 360, np.float64(base + 720), base - 720.0]
             want = {"one": pc(out["bp"][k]), "half": pc(out["half"][k]), "zero": pc(out["zero"][k]), "tiny": pc(out["tiny"][k])}
             for j, rname in enumerate(("one", "half", "zero", "tiny")):
@@ -411,7 +453,7 @@ def rc_border(e, seed):
                         wrong.append((ang, ratio, complex(got), want[rname]))
             # a ratio far below the tolerance scale: linear between the centre and the TLC-emitted border point
             got = complex(obj.get_border_point(base, 1e-9))
-            if abs(got - (ctr + 1e-9 * (want["one"] - ctr))) > 1e-12 * max(1.0, abs(ctr)):
+            if abs(got - (ctr + 1e-9 * (want["one"] - ctr))) > 1e-12 * max(min(1.0, _XF[0]), abs(ctr)):
                 wrong.append((base, 1e-9, got, ctr + 1e-9 * (want["one"] - ctr)))
         if wrong:
             a, r, got, want_ = wrong[0]
@@ -419,9 +461,9 @@ def rc_border(e, seed):
                              f"direction scaled by the ratio is {want_:.6f} ({len(wrong)} such calls)", F_BORDER if nonsq else None))
             continue
         if isinstance(obj, cell.CellBase) and not isinstance(obj, cell.CellWrap):
-            obj.add_border_user([30.0 * k for k in range(12)], 0.5)
-            obj.add_border_user([30 * k for k in range(12)], [0.0] * 6 + [1.0 / 1024] * 6)
-            obj.add_border_user(30.0 * 5, None)
+            obj.add_border_user([30.0 * k + dth for k in range(12)], 0.5)
+            obj.add_border_user([30 * k + dth for k in range(12)], [0.0] * 6 + [1.0 / 1024] * 6)
+            obj.add_border_user(30.0 * 5 + dth, None)
             got = [u.pos for u in obj.users]
             want = [pc(w) for w in out["half"]] + [pc(w) for w in out["zero"][:6]] + [pc(w) for w in out["tiny"][6:]] + [pc(out["bp"][5])]
             if len(got) != len(want) or not all(close(g, w) for g, w in zip(got, want)):
@@ -433,8 +475,9 @@ def rc_border(e, seed):
 
 def rc_layout(e, seed):
     c, out = e["post"], e["out"]
-    cl, rot = c["cl"], c["rot"]
-    sig = f"Cluster(r={qf(cl['r'])}, n={cl['n']}, pos={pc(cl['pos'])}, type={cl['type']}, rotation={rot})"
+    cl, rot = c["cl"], rotf(c)
+    sig = f"Cluster(r={ql(cl['r'])}, n={cl['n']}, pos={pc(cl['pos'])}, type={cl['type']}, rotation={rot})"
+    S2 = _XF[0] ** 2
     C = build_cluster(cl, rot, 5)
     probs = []
     cells = list(C)
@@ -447,7 +490,7 @@ def rc_layout(e, seed):
         if cellobj.rotation != rot or cellobj.id != k + 1 or C.get_cell_by_id(k + 1) is not cellobj:
             probs.append(bad(f"{sig}: cell {k + 1} has rotation {cellobj.rotation} / id {cellobj.id}"))
             break
-        if not close(cellobj.radius ** 2, qf(out["rad2"])):
+        if not close(cellobj.radius ** 2 / S2, qf(out["rad2"])):
             probs.append(bad(f"{sig}: cell {k + 1} has radius {cellobj.radius}, not congruent with the requested size"))
             break
     if not probs:
@@ -455,13 +498,50 @@ def rc_layout(e, seed):
             probs.append(bad(f"{sig}: vertices of the first/last cell differ (cells not congruent / wrongly rotated)"))
         if not close(C.pos, pc(cl["pos"])) or C.rotation != rot:
             probs.append(bad(f"{sig}: cluster reports pos {C.pos} rotation {C.rotation}"))
-        if not close(C.external_radius ** 2, qf(out["ext2"])):
+        if "ext2" in out and not close(C.external_radius ** 2 / S2, qf(out["ext2"])):
             probs.append(bad(f"{sig}: external_radius {C.external_radius} is not the radius of the smallest circle "
-                             f"around the cluster position that contains every cell ({math.sqrt(qf(out['ext2']))})"))
-        if cl["type"] != "square" and not close(C.radius ** 2, qf(out["crad2"])):
+                             f"around the cluster position that contains every cell ({_XF[0] * math.sqrt(qf(out['ext2']))})"))
+        if "crad2" in out and cl["type"] != "square" and not close(C.radius ** 2 / S2, qf(out["crad2"])):
             probs.append(bad(f"{sig}: cluster radius {C.radius} is not half the distance between neighbouring "
-                             f"clusters ({math.sqrt(qf(out['crad2']))})"))
+                             f"clusters ({_XF[0] * math.sqrt(qf(out['crad2']))})"))
+    if not probs and rot == 0:
+        probs += _cluster_defaults(cl, C, sig)
     return (0 if probs else cl["n"] + 2), probs
+
+
+def _cluster_defaults(cl, C, sig):
+    """rotation 0: the same cluster built with the rotation argument omitted, and the positions helper with its
+    default rotation=None (private static method, skipped when absent), must give the same cells"""
+    from pyphysim.cell import cell
+    D = cell.Cluster(ql(cl["r"]), cl["n"], pc(cl["pos"]), cell_type=cl["type"])
+    if not np.allclose([x.pos for x in D], [x.pos for x in C], rtol=0, atol=TOL * min(1.0, _XF[0])) or \
+            not all(np.allclose(a.vertices, b.vertices, rtol=0, atol=TOL * max(min(1.0, _XF[0]), abs(C.pos))) for a, b in zip(D, C)):
+        return [bad(f"{sig}: built without the rotation argument the cluster differs from rotation=0")]
+    f = getattr(cell.Cluster, "_calc_cell_positions", None)
+    if f is not None:
+        P = f(ql(cl["r"]), cl["n"], cl["type"])
+        if not np.allclose(P[:, 0] + C.pos, [x.pos for x in C], rtol=0, atol=TOL * max(min(1.0, _XF[0]), abs(C.pos))) or np.any(P[:, 1] != 0):
+            return [bad(f"{sig}: _calc_cell_positions with rotation=None differs from rotation=0")]
+    return []
+
+
+def _matrices_ok(C, centres, sig, when):
+    """both distance-matrix methods against |user - centre| for the users the cluster has NOW (positions already
+    judged) and the TLC-emitted cell centres; also after deleting the users of one cell"""
+    ctr = np.array([pc(p) for p in centres])
+    for step in ("", " after delete_all_users(first cell with users)"):
+        us = np.array([u.pos for u in C.get_all_users()], dtype=complex)
+        want = np.abs(us[:, None] - ctr[None, :])
+        for name in ("calc_dist_all_users_to_each_cell", "calc_dist_all_users_to_each_cell_no_wrap_around"):
+            D = np.asarray(getattr(C, name)())
+            if D.shape != want.shape or not np.allclose(D, want, rtol=TOL, atol=TOL):
+                return [bad(f"{sig}.{name}() {when}{step}: shape {D.shape}, expected the {want.shape} matrix of Euclidean "
+                            f"user-to-cell distances")]
+        first = next((k for k, x in enumerate(C, start=1) if x.num_users), None)
+        if first is None:
+            break
+        C.delete_all_users(first)
+    return []
 
 
 def rc_distmat(e, seed):
@@ -492,7 +572,7 @@ def rc_distmat(e, seed):
     for u, w in zip(users, want_users):
         if not close(u.pos, w):
             return 0, [bad(f"{sig}: user at {u.pos:.6f}, expected {w:.6f}", None)]
-    want = np.array([[qf(x) for x in row] for row in out["d2"]])
+    want = np.array([[qf(x) for x in row] for row in out["d2"]]) if out["d2"] else np.zeros((0, cl["n"]))
     probs = []
     for name in ("calc_dist_all_users_to_each_cell", "calc_dist_all_users_to_each_cell_no_wrap_around"):
         D = np.asarray(getattr(C, name)())
@@ -559,6 +639,8 @@ def rc_wrap(e, seed):
 
     def key_of(i, p):
         return (i, round(p.real, 6) + 0.0, round(p.imag, 6) + 0.0)
+    if not probs:
+        probs += _matrices_ok(C, out["cells"], sig, "after create_wrap_around_cells(include_users_bool=True)")
     gs = sorted(key_of(i, p) for i, p in got)
     match = None
     for name in ("w1", "w2"):
@@ -660,6 +742,8 @@ def rc_placecl(e, seed):
         okc += len(users)
     if not probs and (C.num_users != total or len(C.get_all_users()) != total):
         probs.append(bad(f"{sig0}: num_users / get_all_users disagree with the cells"))
+    if not probs:
+        probs += _matrices_ok(C, [x["centre"] for x in out["cells"]], sig0, "with the randomly placed users")
     return (0 if probs else okc), probs[:2]
 
 
@@ -924,6 +1008,22 @@ def _mut_path(job):
             name = e["post"]["cls"] + ("+CellWrap" if e["post"]["wpos"] else "")
             return okc, [bad(f"{name} after {[_call_text(alpha, x['call']) for x in edges[:i + 1]]}: {what}", fid)]
         okc += 1
+    # (rel) the history ends with a random placement in the live cell: inside the cell as it is NOW, at the distance requested
+    if edges and edges[-1]["post"]["cell"] and obj is not None:
+        import copy
+        e = edges[-1]
+        ratio = (0.0, 0.5, 0.95)[seed % 3]
+        cp = copy.deepcopy(obj)
+        cp.delete_all_users()
+        cp.add_random_users(3, None, ratio)
+        V = [pc(p) for p in e["out"]["verts"]]
+        ctr, rad = pc(e["post"]["pos"]), math.sqrt(qf(e["out"]["rad2"]))
+        for u in cp.users:
+            if not inside_f(V, u.pos) or abs(u.pos - ctr) < ratio * rad - TOL:
+                name = e["post"]["cls"]
+                return okc, [bad(f"{name} after {[_call_text(alpha, x['call']) for x in edges]}: add_random_users(3, None, {ratio}) "
+                                 f"placed a user at {u.pos:.4f}: outside the cell as it is now or closer to its centre than requested")]
+        okc += 1
     return okc, []
 
 
@@ -974,7 +1074,9 @@ def plan(ctx):
     runs = []
     for i, ch in enumerate(_chunks(sh, 15 if th else 7)):
         runs.append((f"contain/{i}", dict(ops={"contain"}, shapes=ch, rots=rots, G=G)))
-    for i, ch in enumerate(_chunks(sh, 10 if th else 5)):
+    # (quick: the border point of a CellWrap is the inherited Shape method on vertices checked in `contain`: one wrap kind)
+    bsh = sh if th else [x for x in sh if x["kind"] not in ("wrap_hex", "wrap_square")]
+    for i, ch in enumerate(_chunks(bsh, 10 if th else 6)):
         runs.append((f"border/{i}", dict(ops={"border"}, shapes=ch, rots=rots, G=1)))
     cl = cluster_domain(th)
     crots = all_rots() if th else [0, 30, -90, 570]
@@ -991,7 +1093,31 @@ def plan(ctx):
     for i, ch in enumerate(_chunks(w19, len(w19))):
         runs.append((f"wrap/{i}", dict(ops={"wrap"}, clusters=ch, crots=wrots)))
     runs.append(("rel", dict(ops={"place", "pproc"}, rel=rel_domain(th, ctx.seed))))
+    # generic (non 30 degree) rotations and directions, exact through Pythagorean angles
+    gens = [dict(p=p, sgn=sg) for p, sg in ((1, 1), (3, -1), (5, 1), (2, -1), (4, 1), (6, -1))][:6 if th else 3]
+    grots = [0, 30, -90, 240, -510] if th else [0, 30, -90]
+    gsh = [x for x in sh if (x["kind"], x["pos"]) in (("hex", P1), ("rect", P0), ("rect", P1), ("square", P0), ("sec3", P0),
+                                                    ("wrap_square", P0), ("circle", P0))]
+    for i, ch in enumerate(_chunks(gsh, 4 if th else 2)):
+        runs.append((f"containg/{i}", dict(ops={"containg"}, shapes=ch, rots=grots, G=G if th else 4, gens=gens)))
+    # (border points divide: the pairs rotation / direction angle stay on triples with small hypotenuse - 32 bit)
+    runs.append(("borderg", dict(ops={"borderg"}, shapes=gsh, rots=grots, G=1, gens=[dict(p=1, sgn=1), dict(p=2, sgn=-1), dict(p=3, sgn=-1)])))
+    gcl = [cluster("simple", 7, q(3, 0, 2), P1), cluster("square", 4, q(3, 0, 2), P1), cluster("3sec", 3, q(3, 0, 2), P0),
+           cluster("simple", 13, q(1), P1)]
+    runs.append(("layoutg", dict(ops={"layoutg"}, clusters=gcl, crots=[0, 30] + ([-150, 690] if th else []), gens=gens)))
+    if not th:
+        # larger grids / the remaining 3-sector sizes, two rotations
+        extra = [cluster("square", 16, q(3, 0, 2), P1), cluster("3sec", 4, q(3, 0, 2), P0), cluster("3sec", 13, q(3, 0, 2), P0)]
+        runs.append(("layout/extra", dict(ops={"layout"}, clusters=extra, crots=[30, -90])))
+    # distance matrices of clusters with no user and with a single user
+    tiny = [cluster("simple", 3, q(3, 0, 2), P1), cluster("square", 4, q(3, 0, 2), P1), cluster("3sec", 3, q(3, 0, 2), P0)]
+    runs.append(("distmat/nouser", dict(ops={"distmat"}, clusters=tiny, crots=[30], ucells=[], uangles=[0], urel=[pt(q(1, 0, 4), q(1, 0, 4))])))
+    runs.append(("distmat/oneuser", dict(ops={"distmat"}, clusters=tiny, crots=[-90], ucells=[2], uangles=[5], urel=[pt(q(1, 0, 4), q(1, 0, 4))])))
     return runs
+
+
+# similarity transforms (log2 of the scale, offset) the emitted contain / border / layout cases are replayed under
+XFS = [(-10, 0, 0), (9, 3000, -4500), (13, 10000, 2500)]
 
 
 def mut_runs(th):
@@ -1060,7 +1186,8 @@ def _run_model(kw, **tk):
     return r
 
 
-OP_ACTION = {"contain": "Contain", "border": "Border", "layout": "Layout", "distmat": "DistMat", "wrap": "Wrap",
+OP_ACTION = {"containg": "ContainG", "borderg": "BorderG", "layoutg": "LayoutG",
+             "contain": "Contain", "border": "Border", "layout": "Layout", "distmat": "DistMat", "wrap": "Wrap",
              "place": "Place", "placecl": "PlaceCl", "pproc": "PProc"}
 CALL_ACTION = {"new": "MutNew", "pos": "MutSetPos", "rel": "MutMoveRel", "polar": "MutMovePolar", "rot": "MutSetRot",
                "rad": "MutSetRad", "adduser": "MutAddUser", "delusers": "MutDelUsers", "wpos": "WrapSetPos",
@@ -1131,12 +1258,15 @@ def run(ctx):
             if e["post"]["op"] == "distmat":
                 e["uangles"] = list(kw["uangles"])
             jobs.append((e, (ctx.seed * 7919 + len(jobs)) % (2 ** 31)))
+            # the same case at another scale / far from the origin (SimilarityLaw)
+            if e["post"]["op"] in ("contain", "border", "layout", "containg", "borderg", "layoutg") and (th or i % 2 == 0):
+                jobs.append((dict(e, xf=XFS[(i // (1 if th else 2)) % 3]), (ctx.seed * 7919 + len(jobs)) % (2 ** 31)))
     res = pool_map(run_case, jobs, chunksize=max(1, len(jobs) // 96))
     per_op = {}
     for (e, seed), (okc, probs) in zip(jobs, res):
         op = e["post"]["op"]
         per_op[op] = per_op.get(op, 0) + 1
-        ctx.ok(graph.key(e["post"]), okc)
+        ctx.ok(graph.key(e["post"]) + str(e.get("xf", "")), okc)
         ctx.trace_done()
         for p in probs:
             case = {"kind": "case", "edge": e, "seed": seed}
@@ -1201,6 +1331,12 @@ def _expected_cases(kw):
     if "contain" in ops or "border" in ops:
         for s in kw["shapes"]:
             n += 1 if s["kind"] == "circle" else len(set(kw["rots"]))
+    if "containg" in ops:
+        n += sum(1 for s in kw["shapes"] if s["kind"] != "circle") * len(set(kw["rots"])) * len(kw["gens"])
+    if "borderg" in ops:
+        n += sum(1 if s["kind"] == "circle" else len(set(kw["rots"])) for s in kw["shapes"]) * len(kw["gens"])
+    if "layoutg" in ops:
+        n += len(kw["clusters"]) * len(set(kw["crots"])) * len(kw["gens"])
     if "layout" in ops or "distmat" in ops:
         n += len(kw["clusters"]) * len(set(kw["crots"]))
     if "wrap" in ops:
